@@ -29,6 +29,7 @@ var SchedIds = []string{"s0", "s1", "S0", "s:x"}
 var TagKeys = []string{"k", "a.b", "resonate:timeout", "resonate:invoke", "x y"}
 var TagVals = []string{"true", "v", "", "poll://g/i"}
 var Keys = []string{"i0", "i1"}
+var SearchTagKeys = []string{"k", "resonate:timeout"}
 var SchedPatterns = []string{"*", "s*", "*0", "s:x", "s_"}
 
 // DialectSafe restricts the pools to the documented common ground of the two SQL dialects
@@ -38,6 +39,7 @@ func DialectSafe() {
 	Patterns = []string{"*", "p*", "*1", "p_", "*:*", "a:b", "p0", "x/*", "%"}
 	SchedIds = []string{"s0", "s1", "s:x"}
 	TagKeys = []string{"kk", "resonate:timeout", "resonate:invoke"}
+	SearchTagKeys = []string{"kk", "resonate:timeout"}
 }
 
 func (g *G) pick(xs []string) string { return xs[g.R.Intn(len(xs))] }
@@ -200,7 +202,7 @@ func (g *G) CommandOf(k t_aio.StoreKind) *t_aio.Command {
 	case t_aio.SearchPromises:
 		tags := map[string]string{}
 		if g.R.Intn(3) == 0 {
-			tags = g.smap(TagKeys[:2])
+			tags = g.smap(SearchTagKeys)
 		}
 		c.SearchPromises = &t_aio.SearchPromisesCommand{Id: g.pick(Patterns), States: g.pstates(), Tags: tags, Limit: g.limit(), SortId: g.optSort()}
 	case t_aio.CreatePromise:
@@ -224,7 +226,7 @@ func (g *G) CommandOf(k t_aio.StoreKind) *t_aio.Command {
 	case t_aio.SearchSchedules:
 		tags := map[string]string{}
 		if g.R.Intn(3) == 0 {
-			tags = g.smap(TagKeys[:1])
+			tags = g.smap(SearchTagKeys[:1])
 		}
 		c.SearchSchedules = &t_aio.SearchSchedulesCommand{Id: g.pick(SchedPatterns), Tags: tags, Limit: g.limit(), SortId: g.optSort()}
 	case t_aio.CreateSchedule:
